@@ -11,6 +11,7 @@ import (
 	"sort"
 	"strings"
 	"sync"
+	"time"
 
 	apifu "github.com/ccbrown/api-fu"
 	"github.com/ccbrown/api-fu/graphql"
@@ -278,6 +279,9 @@ func buildDefinition(spec *Spec, w *world) (def *graphql.SchemaDefinition, named
 		if bt, ok := builtinTypes[t.Builtin]; ok && t.Kind == "scalar" && t.Name == t.Builtin {
 			named[t.Name] = bt
 			continue
+		} else if t.Builtin == "DateTime" && t.Kind == "scalar" && t.Name == "DateTime" {
+			named[t.Name] = apifu.DateTimeType
+			continue
 		} else if builtinTypes[t.Name] != nil {
 			fail("builtin scalar %s redefined", t.Name)
 		}
@@ -416,9 +420,6 @@ func buildDefinition(spec *Spec, w *world) (def *graphql.SchemaDefinition, named
 					fail("duplicate connection prefix %s", c.Prefix)
 				}
 				connPrefixes[c.Prefix] = true
-				nodeT := parseType(c.Node)
-				nodeField := &FieldSpec{Name: "node", Type: c.Node}
-				nodeResolve := w.resolver(c.Prefix+"Edge", nodeField)
 				fname, prefix := f.Name, c.Prefix
 				var impl []*graphql.InterfaceType
 				for _, p := range c.Impl {
@@ -432,29 +433,77 @@ func buildDefinition(spec *Spec, w *world) (def *graphql.SchemaDefinition, named
 				if f.Deprecated {
 					depReason = "no longer used"
 				}
-				def := apifu.Connection(&apifu.ConnectionConfig{
-					DeprecationReason:     depReason,
-					NamePrefix:            c.Prefix,
-					ImplementedInterfaces: impl,
-					RequiredFeatures:      reqSet(f.Req),
-					CursorType:            reflect.TypeOf(int(0)),
-					EdgeCursor:            func(e interface{}) interface{} { return e.(edgeVal).i },
-					EdgeFields: map[string]*graphql.FieldDefinition{
-						"node": {Type: resolveT(nodeT), Resolve: nodeResolve},
-					},
-					ResolveAllEdges: func(ctx graphql.FieldContext) (interface{}, func(a, b interface{}) bool, error) {
-						var id uint64
-						if o, ok := ctx.Object.(*obj); ok {
-							id = o.id
-						}
-						n := int(h64(w.seed, parent, fname, prefix, id)>>8) % 4
-						edges := make([]edgeVal, n)
-						for i := range edges {
-							edges[i] = edgeVal{i: i}
-						}
-						return edges, func(a, b interface{}) bool { return a.(int) < b.(int) }, nil
-					},
-				})
+				// the user-supplied edge fields, each with its own required features / deprecation / arguments
+				edgeFields := map[string]*graphql.FieldDefinition{}
+				for _, ef := range c.userEdgeFields() {
+					ef := ef
+					if edgeFields[ef.Name] != nil || ef.Name == "cursor" {
+						fail("duplicate edge field %s.%s", c.Prefix, ef.Name)
+					}
+					ed := &graphql.FieldDefinition{Type: resolveT(parseType(ef.Type)), RequiredFeatures: reqSet(ef.Req),
+						Arguments: mkArgs(ef.Args, c.Prefix+"Edge."+ef.Name), Resolve: w.resolver(c.Prefix+"Edge", &ef)}
+					if ef.Deprecated {
+						ed.DeprecationReason = "no longer used"
+					}
+					edgeFields[ef.Name] = ed
+				}
+				count := func(ctx graphql.FieldContext) int {
+					var id uint64
+					if o, ok := ctx.Object.(*obj); ok {
+						id = o.id
+					}
+					return int(h64(w.seed, parent, fname, prefix, id)>>8) % 4
+				}
+				var def *graphql.FieldDefinition
+				if c.TimeBased {
+					base := time.Unix(1600000000, 0).UTC()
+					def = apifu.TimeBasedConnection(&apifu.TimeBasedConnectionConfig{
+						DeprecationReason:     depReason,
+						NamePrefix:            c.Prefix,
+						ImplementedInterfaces: impl,
+						RequiredFeatures:      reqSet(f.Req),
+						Arguments:             mkArgs(c.Args, parent+"."+fname),
+						EdgeFields:            edgeFields,
+						EdgeCursor: func(e interface{}) apifu.TimeBasedCursor {
+							i := e.(edgeVal).i
+							return apifu.NewTimeBasedCursor(base.Add(time.Duration(i)*time.Hour), fmt.Sprintf("e%d", i))
+						},
+						ResolveTotalCount: func(ctx graphql.FieldContext) (interface{}, error) { return count(ctx), nil },
+						EdgeGetter: func(ctx graphql.FieldContext, minTime, maxTime time.Time, limit int) (interface{}, error) {
+							var edges []edgeVal
+							for i, n := 0, count(ctx); i < n; i++ {
+								t := base.Add(time.Duration(i) * time.Hour)
+								if !t.Before(minTime) && !t.After(maxTime) {
+									edges = append(edges, edgeVal{i: i})
+								}
+							}
+							if limit > 0 && len(edges) > limit {
+								edges = edges[:limit]
+							} else if limit < 0 && len(edges) > -limit {
+								edges = edges[len(edges)+limit:]
+							}
+							return edges, nil
+						},
+					})
+				} else {
+					def = apifu.Connection(&apifu.ConnectionConfig{
+						DeprecationReason:     depReason,
+						NamePrefix:            c.Prefix,
+						ImplementedInterfaces: impl,
+						RequiredFeatures:      reqSet(f.Req),
+						Arguments:             mkArgs(c.Args, parent+"."+fname),
+						CursorType:            reflect.TypeOf(int(0)),
+						EdgeCursor:            func(e interface{}) interface{} { return e.(edgeVal).i },
+						EdgeFields:            edgeFields,
+						ResolveAllEdges: func(ctx graphql.FieldContext) (interface{}, func(a, b interface{}) bool, error) {
+							edges := make([]edgeVal, count(ctx))
+							for i := range edges {
+								edges[i] = edgeVal{i: i}
+							}
+							return edges, func(a, b interface{}) bool { return a.(int) < b.(int) }, nil
+						},
+					})
+				}
 				inner := def.Resolve
 				def.Resolve = func(ctx graphql.FieldContext) (interface{}, error) {
 					w.logCall(parent + "." + fname)
